@@ -169,6 +169,8 @@ def jobs(tier):
             functions=[fn_id(CountVectorizer._get_feature_counts), fn_id(CountVectorizer._build_vocabulary), fn_id(CountVectorizer._create_feature_matrix), fn_id(CountVectorizer.fit_transform), fn_id(CountVectorizer.transform)], site="CountVectorizer"),
         Job("C16.SCORE", HP, "ob_score_finite", timeout=600, bounds="score = log-odds + log(covered/len), final = log-odds + 1000 log(len(prod)/len): 4 texts, every span (case split), symbolic model outputs",
             functions=[fn_id(NS.NaiveBayesScorer.score), fn_id(NS.NaiveBayesScorer.score_final)], stubs=["math.log stub recording its argument", "model stub"], site="NaiveBayesScorer"),
+        Job("C16.LSE-RANGE", HP, "ob_lse_range", timeout=300, bounds="_log_sum_exp on pairs from {-5000, ..., 0}: finite and within [max, max + log 2] in float arithmetic",
+            functions=["ctparse.nb_estimator._log_sum_exp"], site="_log_sum_exp"),
         Job("C16.SCORE-HIST", HP, "ob_score_hist", timeout=600, bounds="three consecutive scorings on one scorer object, traces that are permutations of each other, model outputs symbolic: each score is the formula on its own trace",
             functions=[fn_id(NS.NaiveBayesScorer.score), fn_id(NS.NaiveBayesScorer.score_final)], stubs=["math.log stub", "order-sensitive model stub"], site="NaiveBayesScorer"),
         Job("C16.FIT-REFERENCE", HN, "ob_fit", timeout=3600, path_timeout=120, env={"VQ_NDOCS": "3" if tier == "quick" else "4"},
